@@ -184,20 +184,23 @@ def calendar_tables_rule(F, rep):
             if not (isinstance(div, int) and div > 0 and 400 % div == 0):
                 uses_ok = False
         probs, und = [], []
-        if uses_ok:
-            for y in range(-399, 400):
+        if True:
+            # a residue whose folded answer differs is a counterexample whether or not the abstraction's precondition holds; the precondition is
+            # only needed to conclude that agreement on the representatives means agreement on all years
+            for y in list(range(-399, 400)) + [-2400, -2100, -2001, -1900, -401, -400, 400, 401, 1900, 2000, 2100, 2400]:
                 outs, _ = fold(F, ly, [("lit", y)])
                 got = single(outs)
                 want = (y % 4 == 0) and (y % 100 != 0 or y % 400 == 0)
                 if got is None or got[0] != "bool":
                     und.append(y)
                 elif got[1] != want:
-                    probs.append("years = %d (mod 400) are %sleap years" % (y, "" if got[1] else "not "))
+                    probs.append("year %d is %sa leap year" % (y, "" if got[1] else "not "))
         key = "leap-year" if len(lys) == 1 else "leap-year:%s" % ly
         if probs:
             rep.violation(r2, key, "%s: %s; the Gregorian rule is year %% 4 == 0 && (year %% 100 != 0 || year %% 400 == 0)" % (ly, "; ".join(probs[:4])), "%s:%s" % (h["file"], h["line"]))
         elif und or not uses_ok:
-            rep.undecided(r2, key, "%s %s" % (ly, "uses the year other than in `year % k` with k dividing 400" if not uses_ok else "does not fold to a boolean for residues %s" % und[:5]))
+            rep.undecided(r2, key, "%s %s" % (ly, "agrees on all representatives but uses the year other than in `year % k` with k dividing 400, so they do not stand for all years" if not uses_ok
+                                              else "does not fold to a boolean for residues %s" % und[:5]))
         else:
             rep.ok(r2, key, "799 residue classes (sign, |year| mod 400) folded: year % 4 == 0 && (year % 100 != 0 || year % 400 == 0)")
 
@@ -221,7 +224,7 @@ def compared_only(F, h, pname):
 
 
 def date_validity_rule(F, rep):
-    r3 = rep.rule("R15.3", "date validity beyond chrono's range: years -999999999..999999999 and day <= last day of the month (is_valid_date folded on one representative per cell)")
+    r3 = rep.rule("R15.3", "date validity beyond chrono's range: years -999999999..999999999 and 1 <= day <= last day of the month (is_valid_date folded on one representative per cell)")
     # ---------------- R15.3
     for vd in fns_named(F, "is_valid_date") or [None]:
         if vd is None:
@@ -229,9 +232,7 @@ def date_validity_rule(F, rep):
             break
         h = F.hir[vd]
         params = [p.get("name") for p in h.get("params", [])]
-        if len(params) != 3 or not all(compared_only(F, h, p) for p in params):
-            rep.undecided(r3, "date-validity", "%s uses its parameters in arithmetic; the cell abstraction does not apply" % vd)
-            continue
+        cells_ok = len(params) == 3 and all(compared_only(F, h, p) for p in params)
         probs, und = [], 0
         for last in (28, 29, 30, 31, None):
             def hook(callee, args, s, last=last):
@@ -245,15 +246,16 @@ def date_validity_rule(F, rep):
                 for d in (0, 1, 27, 28, 29, 30, 31, 32, 255):
                     outs, _ = fold(F, vd, [("lit", y), ("sym", "month"), ("lit", d)], hook)
                     got = single(outs)
-                    want = last is not None and -999999999 <= y <= 999999999 and d <= last
+                    want = last is not None and -999999999 <= y <= 999999999 and 1 <= d <= last
                     if got is None or got[0] != "bool":
                         und += 1
                     elif got[1] != want:
                         probs.append("year %d, day %d of a month with %s days is %s" % (y, d, last if last is not None else "no", "valid" if got[1] else "not valid"))
         if probs:
-            rep.violation(r3, "date-validity", "%s: %s (the FEEL year range is -999999999..999999999 and a day is valid up to the month's last day)" % (vd, "; ".join(probs[:3])), "%s:%s" % (h["file"], h["line"]))
-        elif und:
-            rep.undecided(r3, "date-validity", "%s does not fold to a boolean on %d representative(s)" % (vd, und))
+            rep.violation(r3, "date-validity", "%s: %s (the FEEL year range is -999999999..999999999 and a day is valid from 1 up to the month's last day)" % (vd, "; ".join(probs[:3])), "%s:%s" % (h["file"], h["line"]))
+        elif und or not cells_ok:
+            rep.undecided(r3, "date-validity", "%s %s" % (vd, "does not fold to a boolean on %d representative(s)" % und if und else
+                                                          "agrees on all representatives but uses its parameters in arithmetic, so they do not stand for all values"))
         else:
             rep.ok(r3, "date-validity", "7 year cells x 9 days x 5 month lengths folded")
 
